@@ -53,15 +53,36 @@ LEVEL_NOTE = ('trusted: Lean kernel; oracle contracts (monitored by the harness 
 TECHNIQUE = 'Lean 4 theorems over an executable control skeleton with contract-bound oracles + differential replay of recorded calls'
 
 
+def harness(ctx, name, variant):
+    """Compile a harness; the shared library cache may be pruned by a concurrent run of another property, so retry once with a
+    fresh library build."""
+    for attempt in (0, 1):
+        try:
+            if not os.path.exists(ctx.lib(variant).a):
+                ctx._libs.pop(variant, None)
+            return ctx.harness(name, [name + '.c'], variant=variant)
+        except RuntimeError:
+            if attempt:
+                raise
+            ctx._libs.pop(variant, None)
+
+
+def parallel(fn, argtuples, workers=4):
+    """Run fn(*args) for every tuple on a small thread pool (each call spawns one harness process); results in order."""
+    from concurrent.futures import ThreadPoolExecutor
+    with ThreadPoolExecutor(max_workers=workers) as ex:
+        return list(ex.map(lambda a: fn(*a), argtuples))
+
+
 def _sizes(ctx):
     return (500, 150) if ctx.quick else (9000, 2500)
 
 
 def ties(ctx):
-    h = ctx.harness('c01_decskel', ['c01_decskel.c'], variant='san')
+    h = harness(ctx, 'c01_decskel', 'san')
     nr, nm = _sizes(ctx)
-    return [common.run_tie('decskel-rand', [h, 'rand', str(ctx.seed), str(nr)]),
-            common.run_tie('decskel-ms', [h, 'ms', str(ctx.seed), str(nm)])]
+    return parallel(common.run_tie, [('decskel-rand', [h, 'rand', str(ctx.seed), str(nr)]),
+                                     ('decskel-ms', [h, 'ms', str(ctx.seed), str(nm)])])
 
 
 def _pred_line(inp, impl):
@@ -115,29 +136,34 @@ def search(ctx):
     projection decoders with random layouts."""
     nr, nm = _sizes(ctx)
     cases, wit, kinds, samples = 0, [], {}, []
-    for variant, off in (('plain', 1000), ('san', 2000)):
-        h = ctx.harness('c01_decskel', ['c01_decskel.c'], variant=variant)
-        for mode, n in (('rand', nr), ('ms', nm)):
-            args = [mode, str(ctx.seed + off), str(n), 'quiet']
-            rc, out, err = _run_search(h, args, 3000)
-            m = re.search(r'# \w+ seed=\d+ sessions=\d+ calls=(\d+) witnesses=(\d+)', out)
-            if m:
-                cases += int(m.group(1))
-            for line in out.split('\n'):
-                if line.startswith('W '):
-                    kind, what, inp = (line[2:].split(' | ') + ['', ''])[:3]
-                    kinds[kind] = kinds.get(kind, 0) + 1
-                    wit.append({'suite': 'decskel-search-%s-%s' % (mode, variant), 'input': inp, 'expected': 'C01 predicate holds',
-                                'observed': what, 'why': '%s (reproduce: %s %s)' % (kind, os.path.basename(h), ' '.join(args))})
-                elif line.startswith('O ') and line[2:].split(' ')[0] in ('SANITIZER', 'ABORT', 'TIMEOUT', 'SIGSEGV'):
-                    prev = [l for l in out.split('\n') if l.startswith('I ')]
-                    rep = [l for l in err.split('\n') if 'ERROR: AddressSanitizer' in l or 'runtime error' in l or l.startswith('SUMMARY:')][:6]
-                    wit.append({'suite': 'decskel-search-%s-%s' % (mode, variant), 'input': prev[-1][2:] if prev else '',
-                                'expected': 'call returns', 'observed': line[2:], 'sanitizer_report': rep,
-                                'why': 'the call ended with %s (reproduce: %s %s)' % (line[2:], os.path.basename(h), ' '.join(args))})
-            if rc != 0 and not m and not any(w['suite'].endswith('%s-%s' % (mode, variant)) for w in wit):
-                wit.append({'suite': 'decskel-search-%s-%s' % (mode, variant), 'input': ' '.join(args), 'expected': 'harness completes',
-                            'observed': 'exit %d: %s' % (rc, err[-600:]), 'why': 'search harness died'})
-            samples.append('%s %s: %s' % (variant, ' '.join(args), (m.group(0) if m else 'no summary')))
+    hs = {v: harness(ctx, 'c01_decskel', v) for v in ('plain', 'san')}
+
+    def one(variant, off, mode, n):
+        args = [mode, str(ctx.seed + off), str(n), 'quiet']
+        rc, out, err = _run_search(hs[variant], args, 3000)
+        return variant, mode, args, rc, out, err
+
+    jobs = [(variant, off, mode, n) for variant, off in (('plain', 1000), ('san', 2000)) for mode, n in (('rand', nr), ('ms', nm))]
+    for variant, mode, args, rc, out, err in parallel(one, jobs):
+        h = hs[variant]
+        m = re.search(r'# \w+ seed=\d+ sessions=\d+ calls=(\d+) witnesses=(\d+)', out)
+        if m:
+            cases += int(m.group(1))
+        for line in out.split('\n'):
+            if line.startswith('W '):
+                kind, what, inp = (line[2:].split(' | ') + ['', ''])[:3]
+                kinds[kind] = kinds.get(kind, 0) + 1
+                wit.append({'suite': 'decskel-search-%s-%s' % (mode, variant), 'input': inp, 'expected': 'C01 predicate holds',
+                            'observed': what, 'why': '%s (reproduce: %s %s)' % (kind, os.path.basename(h), ' '.join(args))})
+            elif line.startswith('O ') and line[2:].split(' ')[0] in ('SANITIZER', 'ABORT', 'TIMEOUT', 'SIGSEGV'):
+                prev = [l for l in out.split('\n') if l.startswith('I ')]
+                rep = [l for l in err.split('\n') if 'ERROR: AddressSanitizer' in l or 'runtime error' in l or l.startswith('SUMMARY:')][:6]
+                wit.append({'suite': 'decskel-search-%s-%s' % (mode, variant), 'input': prev[-1][2:] if prev else '',
+                            'expected': 'call returns', 'observed': line[2:], 'sanitizer_report': rep,
+                            'why': 'the call ended with %s (reproduce: %s %s)' % (line[2:], os.path.basename(h), ' '.join(args))})
+        if rc != 0 and not m and not any(w['suite'].endswith('%s-%s' % (mode, variant)) for w in wit):
+            wit.append({'suite': 'decskel-search-%s-%s' % (mode, variant), 'input': ' '.join(args), 'expected': 'harness completes',
+                        'observed': 'exit %d: %s' % (rc, err[-600:]), 'why': 'search harness died'})
+        samples.append('%s %s: %s' % (variant, ' '.join(args), (m.group(0) if m else 'no summary')))
     return {'cases': cases, 'distinct': len(kinds), 'oracle': search.__doc__, 'samples': samples, 'witnesses': wit[:20],
             'witness_kinds': kinds}
